@@ -10,7 +10,7 @@
    sin of the solar elevation at noon, log(1+..) twice, exp(-0.8 LAI), exp(-MAPHC/MIPHC), exp(-MAPHO/MIPHO).
    math.Pow(T,2) and math.Pow(T,3) are the products T*T and T*T*T (bit-exact, checked by the correspondence). *)
 From Coq Require Import ZArith List Bool.
-From Hermes Require Import Num.
+From Hermes Require Import Num CropNModel.
 Import ListNotations.
 Local Open Scope num_scope.
 
@@ -133,4 +133,9 @@ Section Radia.
     {| ro_amax := amax; ro_effe := effe; ro_dle := dle;
        ro_dgac := if low then phcl else phch; ro_dgao := if low then phol else phoh;
        ro_xarg := xarg; ro_yarg := yarg; ro_ecarg := ecarg; ro_eoarg := eoarg |}.
+  (* radia() as a whole (GPHOT, MAINT): the light response feeds the assimilation kernel CropNModel.assim_of *)
+  Definition radia_of (x : rd_in) (trrel vswell maint_pot : T) (cold : bool) : T * T :=
+    let r := rd_light x in
+    assim_of {| as_rad := rd_rad x; as_sund := rd_sund x; as_dle := ro_dle r; as_dgac := ro_dgac r; as_dgao := ro_dgao r;
+                as_drc := rd_drc x; as_trrel := trrel; as_vswell := vswell; as_maint_pot := maint_pot; as_cold := cold |}.
 End Radia.
